@@ -39,7 +39,7 @@ ASSUMPTIONS = [
 
 
 SITE_OBS = None      # set to a dict by C17: (file, line) -> observation of loop / iterator sites during symbolic execution
-ITER_METHODS = ("map", "flat_map", "fold", "for_each", "filter", "extend", "extend_from_slice", "collect", "to_vec", "sort", "dedup", "drain",
+ITER_METHODS = ("retain", "position", "find", "windows", "chunks", "chunks_exact", "binary_search", "map", "flat_map", "fold", "for_each", "filter", "extend", "extend_from_slice", "collect", "to_vec", "sort", "dedup", "drain",
                 "chain", "zip", "all", "any", "sum", "rev", "enumerate", "skip", "take", "step_by", "iter", "iter_mut", "into_iter", "to_owned", "clone", "contains")
 
 
@@ -1214,14 +1214,15 @@ class Exec(object):
         _, cond, blk, line = e
         n = 0
         symbolic = False
+        trace0 = len(self.ctx.trace) if self.ctx else 0
         while True:
             self.loop_site(line, "while", n)
             self.hint = None
             c = self.eval(cond, env)
             if not isinstance(c, bool):
-                symbolic = True
-            if symbolic:
                 self.observe_site(line, "while", n, symbolic=True)
+            if not isinstance(c, bool) or (self.ctx is not None and len(self.ctx.trace) > trace0):
+                symbolic = True          # the condition, or a branch taken inside the loop, depends on symbolic data
             if symbolic and n > self.max_loop:
                 raise Unbounded(self.file, line, "`while` still running after %d iterations with a data-dependent condition" % n)
             if n > 200000:
@@ -1729,6 +1730,47 @@ class Exec(object):
             e = args[0]
             if isinstance(v, int) and isinstance(e, int):
                 return v ** e
+        if isinstance(v, int) and name in ("checked_ilog2", "ilog2", "is_power_of_two", "leading_zeros", "trailing_zeros", "count_ones", "count_zeros",
+                                            "next_power_of_two", "checked_next_power_of_two", "isqrt"):
+            if name == "checked_ilog2":
+                return ResultV("Some", v.bit_length() - 1) if v > 0 else ResultV("None")
+            if name == "ilog2":
+                if v <= 0:
+                    self.panic(line, "argument of integer logarithm must be positive")
+                return v.bit_length() - 1
+            if name == "is_power_of_two":
+                return v > 0 and v & (v - 1) == 0
+            if name == "leading_zeros":
+                return 64 - v.bit_length()
+            if name == "trailing_zeros":
+                return 64 if v == 0 else (v & -v).bit_length() - 1
+            if name == "count_ones":
+                return bin(v).count("1")
+            if name == "count_zeros":
+                return 64 - bin(v).count("1")
+            if name in ("next_power_of_two", "checked_next_power_of_two"):
+                r = 1 if v <= 1 else 1 << (v - 1).bit_length()
+                return r if name == "next_power_of_two" else ResultV("Some", r)
+        if name in ("checked_ilog2", "ilog2", "is_power_of_two", "trailing_zeros", "leading_zeros", "count_ones") and isinstance(v, SI):
+            # symbolic machine integer: case split over its (small) feasible values
+            c = self.concretize(v, 1 << 12, line)
+            if c is None:
+                self.unsupported(line, ".%s() of a symbolic integer above 4096" % name)
+            return self.int_method(c, name, args, line, tf)
+        if name in ("checked_pow", "pow") and isinstance(v, int):
+            e = self.concretize(args[0], 256, line)
+            if e is None:
+                self.unsupported(line, "integer power with a large symbolic exponent")
+            r = v ** e
+            if name == "checked_pow":
+                return ResultV("Some", r) if r < TWO64 else ResultV("None")
+            if r >= TWO64:
+                self.panic(line, "attempt to multiply with overflow")
+            return r
+        if name in ("abs_diff",):
+            if self.truth(self.compare("<", v, args[0], line), line):
+                return self.i_arith("-", args[0], v, line)
+            return self.i_arith("-", v, args[0], line)
         if name in ("min", "max"):
             o = args[0]
             c = self.compare("<=" if name == "min" else ">=", v, o, line)
@@ -1958,6 +2000,78 @@ class Exec(object):
             out = v[lo:hi]
             del v[lo:hi]
             return RList(out)
+        if name in ("binary_search",):
+            # on a sorted slice: Ok(index of an equal element) | Err(insertion point that keeps the order)
+            x = args[0]
+            for i in range(len(v)):
+                if self.truth(self.deep_eq(v[i], x, line), line):
+                    return ResultV("Ok", i)
+                if self.truth(self.compare("<", x, v[i], line), line):
+                    return ResultV("Err", i)
+            return ResultV("Err", len(v))
+        if name == "insert":
+            c = self.concretize(args[0], len(v), line)
+            if c is None or c > len(v):
+                self.panic(line, "insertion index (is %s) should be <= len (is %d)" % (c if c is not None else "?", len(v)))
+            v.insert(c, args[1])
+            return ()
+        if name in ("remove", "swap_remove"):
+            c = self.index_value(v, args[0], line)
+            x = v[c]
+            if name == "remove":
+                del v[c]
+            else:
+                v[c] = v[-1]
+                del v[-1]
+            return x
+        if name == "swap":
+            a_, b_ = self.index_value(v, args[0], line), self.index_value(v, args[1], line)
+            v[a_], v[b_] = v[b_], v[a_]
+            return ()
+        if name == "retain":
+            keep = [x for x in list(v) if self.truth(self.call_closure(args[0], [x], line), line)]
+            del v[:]
+            v.extend(keep)
+            return ()
+        if name == "position":
+            for i, x in enumerate(list(v)):
+                if self.truth(self.call_closure(args[0], [x], line), line):
+                    return ResultV("Some", i)
+            return ResultV("None")
+        if name in ("find",):
+            for x in list(v):
+                if self.truth(self.call_closure(args[0], [x], line), line):
+                    return ResultV("Some", x)
+            return ResultV("None")
+        if name in ("sort_unstable", "sort_by_key", "sort_unstable_by_key") and name == "sort_unstable":
+            return self.list_method(v, "sort", args, line, tf)
+        if name in ("last_mut", "first_mut"):
+            return self.list_method(v, name[:-4], args, line, tf)
+        if name in ("max", "min") and not args:
+            if not v:
+                return ResultV("None")
+            best = v[0]
+            for x in v[1:]:
+                c = self.compare(">" if name == "max" else "<", x, best, line)
+                if self.truth(c, line):
+                    best = x
+            return ResultV("Some", best)
+        if name == "clear":
+            del v[:]
+            return ()
+        if name == "split_at":
+            c = self.concretize(args[0], len(v), line)
+            if c is None or c > len(v):
+                self.panic(line, "mid > len")
+            return (RList(v[:c]), RList(v[c:]))
+        if name in ("windows", "chunks", "chunks_exact"):
+            c = self.concretize(args[0], max(len(v), 1), line)
+            if not c:
+                self.panic(line, "%s size must be non-zero" % name)
+            if name == "windows":
+                return RList([RList(v[i:i + c]) for i in range(0, len(v) - c + 1)])
+            n_full = len(v) // c * c
+            return RList([RList(v[i:i + c]) for i in range(0, len(v) if name == "chunks" else n_full, c)])
         if name == "truncate":
             c = self.concretize(args[0], len(v), line)
             if c is not None:
